@@ -137,15 +137,29 @@ def apply (r : RState) (st : RState) : RState :=
 def badHeadersFor (code : Nat) : List Str :=
   ((Gen.badHeaders.find? (·.1 == code)).map (·.2.map String.toList)).getD []
 
+/-- the entries of `_headers` that survive the per-status blacklist (`h[0].title() not in bad_headers`) -/
+def keptHeaders (st : RState) : Hdrs :=
+  let bad := badHeadersFor st.code
+  if bad.isEmpty then st.headers else st.headers.filter fun h => !bad.contains (titleAscii h.1)
+
+/-- `need_ctype` -/
+def needCtype (st : RState) : Bool :=
+  (badHeadersFor st.code).isEmpty && !st.headers.has "Content-Type".toList
+
+/-- one pair per value -/
+def flatHeaders (st : RState) : List (Str × HVal) :=
+  (keptHeaders st).flatMap fun h => h.2.map fun v => (h.1, v)
+
+def emitPair (p : Str × HVal) : Option (Str × Str) :=
+  match p.2 with
+  | .good v => some (p.1, recodeLatin1 v)
+  | .bad => none
+
 /-- `BaseResponse.headerlist`; `none` = raises (`UnicodeEncodeError` on a lone surrogate) -/
 def headerlist (st : RState) : Option (List (Str × Str)) :=
-  let bad := badHeadersFor st.code
-  let hs := if bad.isEmpty then st.headers else st.headers.filter fun h => !bad.contains (titleAscii h.1)
-  let needCtype := bad.isEmpty && !st.headers.has "Content-Type".toList
-  let flat : List (Str × HVal) := hs.flatMap fun h => h.2.map fun v => (h.1, v)
-  if flat.any (fun p => p.2 == .bad) then none else
-  some (flat.filterMap (fun p => match p.2 with | .good v => some (p.1, recodeLatin1 v) | .bad => none)
-    ++ (if needCtype then [("Content-Type".toList, Gen.defaultContentType.toList)] else [])
+  if (flatHeaders st).any (fun p => p.2 == .bad) then none else
+  some ((flatHeaders st).filterMap emitPair
+    ++ (if needCtype st then [("Content-Type".toList, Gen.defaultContentType.toList)] else [])
     ++ st.cookies.map fun c => ("Set-Cookie".toList, recodeLatin1 (c.1 ++ '=' :: c.2)))
 
 /-! ### the handler program space -/
